@@ -128,4 +128,20 @@ CLAIMS['C13'] = {
           'the higher-quality mate, N on an equal-quality disagreement); the result is invariant under permutation of insertion order and duplication of every fragment. ~23k (quick) / ~380k (thorough) calls.',
   'note': 'Modelled not verified: pysam accessors (aligned pairs, MD presence) supply the model input; numpy argmax/mask; dict/set semantics. Default kwargs only; assumes bases in ACGTN and two-slot '
           'read lists (one-slot lists raise IndexError, reproduced by the model). No translator tie (K only).'}
+CLAIMS['C06'] = {
+  'technique': 'Coq proof (induction over the arrival list through one transition-invariant principle) about an executable model of the greedy assignment and write_tags + correspondence on simulated libraries through the real MoleculeIterator',
+  'text': 'Every valid fragment is in exactly one molecule; fragments of a molecule share cell, strand, contig and (NLA, CHIC radius 0) site, and each joined within the UMI distance of the representative '
+          'UMI and within the radius of the running site; with distance 0 the molecules are exactly the classes of identical (cell,strand,contig,site,UMI) for every arrival order (with a cap: the first '
+          'k of each class, TF = class size); the assignment is maximal; after write_tags exactly one fragment per molecule is not duplicate whatever flags the input carried, RC = rank, af = size, '
+          'TF = size + overflow; re-tagging is idempotent. 11.7k libraries quick / 90k thorough incl. exhaustive small scopes.',
+  'note': 'Model is the NO-ejection machine with pooling_method=1 (schedule independence is C07); the read -> (cell,strand,contig,site,UMI,valid) abstraction uses the implementation accessors (geometry is '
+          'C09); pysam flag/tag storage, Counter order and reflected __eq__ dispatch are modelled and sampled by K; re-tag idempotence is for the same arrival order (BAM round trips sampled). No translator tie.'}
+CLAIMS['C18'] = {
+  'technique': 'Coq proof: state-machine refinement of the eager / lazy (clear-on-fetch) / cached AlleleResolver against a loop-free mode-independent specification; character-level write_cache/read_cached round trip; correspondence on the real class',
+  'text': 'For every VCF, every phased/select_samples/ignore_conversions setting and every history of runs sharing one cache directory (each run eager, lazy or cached, first run writing, later runs reading, '
+          'any query sequence and contig order incl. returning to an evicted contig) getAllelesAt/has_location return exactly the specification: the selected samples whose genotype at the last informative '
+          'record of the site contains the base, nothing for absent, uninformative or ignored-conversion sites; the cache file format round-trips. ~16k (quick) / ~730k (thorough) lookups, cache files byte for byte.',
+  'note': 'Modelled not verified: pysam VCF parsing and tabix fetch (abstraction compared with pysam\'s view of every generated record), gzip/text codec, dict/set semantics. Assumes indexed VCF with >= 1 sample '
+          'column, region_start/end None, sample names without blanks/commas, VCF unchanged between runs, and - for histories mixing settings - no two (contig, settings) pairs mapping to one cache '
+          'file name (checked per history). The monomorphic rule re-admitting multi-base sites is specified as coded. No translator tie (K only).'}
 NOT_APPLICABLE = {}
